@@ -19,6 +19,7 @@
     ('fstr', *parts)              f-string
     ('loopvar', name, loopid)     name rebound inside a loop (opaque afterwards)
     ('unk', text)                 expression kind not modelled
+    ('v', name, id)               local variable holding the result of an opaque call (Extraction.vardefs[id])
 """
 
 from __future__ import annotations
@@ -203,4 +204,8 @@ def tstr(t, depth: int = 0) -> str:
         return f"<{t[1]} after loop>"
     if k == "unk":
         return f"<?{t[1]}>"
+    if k == "v":
+        return f"{t[1]}"
+    if k == "branchfn":
+        return f"<branch of condition {t[1]}>"
     return repr(t)
